@@ -13,7 +13,11 @@ SPEC = dict(
           "all pairs; coupling is symmetric after any sequence of couple_non_covalently calls; the star of a row follows the coupled "
           "list. The Float instance is compared with the real transfer/swap on stub groups (ordered lists, bit patterns); on real "
           "runs the analysis switched on is compared with the analysis switched off (every record, determinants as multisets), the "
-          "coupled lists are checked for symmetry in every conformation and the star of every determinant row against the lists.",
+          "coupled lists are checked for symmetry in every conformation and the star of every determinant row against the lists. "
+          "The probe of a pair itself (is_coupled_protonation_state_probability with all its gates) is modelled: on every path the pair "
+          "ends untouched or swapped twice (probe_state), hence restored and up to date (probe_restores, probe_keeps_uptodate), and its "
+          "three scaling factors lie in [0, 1]; the real probe is driven on stub pairs with random thresholds and compared with the model "
+          "(state afterwards, gate taken, returned values).",
     note="Exact arithmetic: in floats a swap-swap changes the summation order, so restored pKa values are compared to 1e-9, not "
          "bitwise. Label-based membership tests (`in`) are modelled by label identity; the display mode (-d) is covered by C02/C03.",
     technique="Lean 4 proof (list permutations, invariants over call sequences) + differential correspondence + on/off metamorphic runs",
@@ -23,6 +27,89 @@ SPEC = dict(
          "non-trivial = a swap that actually moves a determinant, or a structure with at least one coupled pair",
     assumptions=["labels of the groups of one conformation are pairwise distinct on the generated inputs"],
 )
+
+
+def probe_family(ctx):
+    """is_coupled_protonation_state_probability driven directly on stub pairs, every gate exercised: the state of both groups
+    afterwards and the returned dictionary against the Lean probe model, and the 'observes without disturbing' clause itself"""
+    import types
+    from propka.coupled_groups import NCCG
+    rnd = ctx.rng
+    reqs, reals, bad, outcomes = [], [], [], {}
+    saved = NCCG.parameters
+    try:
+        for _ in range(120 if ctx.quick() else 3000):
+            groups = stub_groups(rnd, rnd.randint(2, 4))
+            g1, g2 = rnd.sample(groups, 2)
+            # make the pair interact often enough for the later gates to be reached
+            from propka.determinant import Determinant
+            for a, b in ((g1, g2), (g2, g1)):
+                for t in ('sidechain', 'coulomb'):
+                    if rnd.random() < 0.6:
+                        a.determinants[t].append(Determinant(b, rnd.choice([0.3, 0.45, 0.55, 0.8, 1.2, -0.4, rnd.uniform(0, 2)])))
+                a.calculate_total_pka()
+            g1.intrinsic_pka = g1.model_pka + rnd.choice([0.0, rnd.uniform(-2, 2)])
+            g2.intrinsic_pka = g2.model_pka + rnd.choice([0.0, rnd.uniform(-2, 2)])
+            ph = rnd.choice(['variable', 'variable', 7.0, rnd.uniform(0, 14)])
+            P = types.SimpleNamespace(min_interaction_energy=rnd.choice([0.5, 0.2, 1.0]), min_pka=rnd.choice([0.0, 4.0]), max_pka=rnd.choice([10.0, 6.0, 14.0]),
+                                      max_free_energy_diff=rnd.choice([1.0, 0.3, 5.0]), min_swap_pka_shift=rnd.choice([1.0, 0.4, 2.0]),
+                                      max_intrinsic_pka_diff=rnd.choice([2.0, 0.5, 7.0]), pH=ph, reference='neutral')
+            NCCG.parameters = P
+            c = [rnd.choice([0.0, rnd.uniform(-3, 3)]), rnd.uniform(-0.5, 0.5), rnd.uniform(-0.5, 0.5), rnd.choice([0.0, rnd.uniform(-0.1, 0.1)])]
+
+            def energy(ph=None, reference=None, g1=g1, g2=g2, c=c):
+                return c[0] + c[1] * g1.pka_value + c[2] * g2.pka_value + c[3] * ph
+            snap = [(g.pka_value, [sorted(real_dets(g.determinants[t])) for t in ('sidechain', 'backbone', 'coulomb')]) for g in (g1, g2)]
+            req = "dets probe %s %s %s %s" % (
+                ",".join([str(common.bits(x)) for x in (P.min_interaction_energy, P.min_pka, P.max_pka, P.max_free_energy_diff, P.min_swap_pka_shift, P.max_intrinsic_pka_diff)]
+                         + ["v" if ph == 'variable' else str(common.bits(ph))]),
+                ",".join(str(common.bits(x)) for x in c + [g1.intrinsic_pka, g2.intrinsic_pka]), enc_group(g1), enc_group(g2))
+            r = NCCG.is_coupled_protonation_state_probability(g1, g2, energy)
+            state = " ".join("%d|%s" % (common.bits(g.pka_value), "|".join(repr(real_dets(g.determinants[t])) for t in ('sidechain', 'backbone', 'coulomb'))) for g in (g1, g2))
+            if r['coupling_factor'] == -1.0 and len(r) == 1:
+                res = "rejected"
+            else:
+                res = [r[k] for k in ('default_energy', 'swapped_energy', 'interaction_energy', 'swapped_pka1', 'swapped_pka2', 'pka_shift1', 'pka_shift2', 'pH')] + [r['coupling_factor']]
+            outcomes["rejected" if res == "rejected" else "coupled"] = outcomes.get("rejected" if res == "rejected" else "coupled", 0) + 1
+            reqs.append(req)
+            reals.append((state, res))
+            ctx.case(key=req, nontrivial=res != "rejected" or abs(snap[0][0] - g1.pka_value) >= 0)
+            after = [(g.pka_value, [sorted(real_dets(g.determinants[t])) for t in ('sidechain', 'backbone', 'coulomb')]) for g in (g1, g2)]
+            for (p0, d0), (p1, d1) in zip(snap, after):
+                if abs(p0 - p1) > 1e-9 or d0 != d1:
+                    bad.append((req, p0, p1, res if res == "rejected" else "coupled"))
+                    break
+    finally:
+        NCCG.parameters = saved
+    ctx.count("probes rejected", outcomes.get("rejected", 0))
+    ctx.count("probes coupled", outcomes.get("coupled", 0))
+    for b in bad[:2]:
+        ctx.violate("probe-disturbs", "is_coupled_protonation_state_probability (%s) leaves a group changed: pKa %r -> %r" % (b[3], b[1], b[2]),
+                    dict(call="NCCG.is_coupled_protonation_state_probability", request=b[0]))
+    ctx.oblige("spec: the probe of a pair restores both groups on every path through its gates (%d stub pairs, %d coupled)" % (len(reqs), outcomes.get("coupled", 0)),
+               not bad, str([(b[1], b[2], b[3]) for b in bad[:1]]))
+    if ctx.driver_ok:
+        outs = common.driver_batch(reqs)
+        dis = []
+        for q, (state, res), m in zip(reqs, reals, outs):
+            parts = m.split(" ")
+            mm = []
+            for part in parts[:2]:
+                f = part.split("|")
+                mm.append("%s|%s" % (f[0], "|".join(repr(dec_dets(x)) for x in f[1:])))
+            ok = " ".join(mm) == state
+            if res == "rejected" or parts[2] == "rejected":
+                ok = ok and res == parts[2]
+            else:
+                v = [common.unbits(int(x)) for x in parts[2].split(",")]
+                ok = ok and all(common.bits(a) == common.bits(b) or a == b for a, b in zip(v[:8], res[:8]))
+                fac = v[8] * v[9] * v[10]
+                ok = ok and abs(fac - res[8]) <= 1e-12 * max(1.0, abs(fac))
+            if not ok:
+                dis.append((q[:100], state[:120], res, m[:200]))
+        ctx.oblige("correspondence: Float probe model = real is_coupled_protonation_state_probability (state afterwards, gate taken, returned values; %d probes)" % len(reqs), not dis, str(dis[:1]))
+    else:
+        ctx.oblige("correspondence: probe model = real probe", False, "driver not built")
 
 
 def run(ctx):
@@ -50,6 +137,7 @@ def run(ctx):
     for b in twice_bad[:2]:
         ctx.violate("swap-not-undone", "swap_interactions twice does not restore the groups: pKa %r -> %r" % (b[1], b[2]), dict(call="NCCG.swap_interactions x2", groups=b[0]))
     ctx.oblige("spec: swap_interactions applied twice restores pKa (1e-9) and the determinant multisets with original labels (%d stub systems)" % len(reqs), not twice_bad, str(twice_bad[:1]))
+    probe_family(ctx)
     # couple_non_covalently sequences
     sym_bad = []
     for _ in range(100 if ctx.quick() else 2000):
